@@ -136,3 +136,46 @@ Print Assumptions C01_routes_servers.
 Print Assumptions C01_build_consistent.
 Print Assumptions C01_source_tables.
 Print Assumptions C01_holds.
+
+(** ** tie to the source text: the bodies of Header::decode, Header::encode,
+    Message::new, Message::from_slice and Message::from_slice_exact, re-translated
+    into Gallina by bin/rs2v on every run (Gen/FrameGen.v) with every panicking
+    operation kept ([add64], [slice_chk], [index_chk]), are the model's functions
+    on all inputs.  encode: the code stores the two u8 fields as they are, the
+    model writes [le_enc 1].  Message::new: the code adds [48 + |q| + |b|] with
+    overflow-checked u64 [+] where the model adds in [N]; they differ exactly
+    when that sum reaches 2^64, which no two Vec lengths can.  A function that
+    could not be translated is [None] and its clause is [True] (reported by
+    rs2v); a function whose meaning changed breaks the proof. *)
+From RepeV Require Import Base.GenFramePrelude Gen.FrameGen Proofs.FrameGenAgree.
+
+Theorem C01_source_translation :
+  agrees1 gen_decode decode /\
+  match gen_encode with
+  | Some f => forall h, h_version h < 256 -> h_notify h < 256 -> f h = Ok (encode h)
+  | None => True
+  end /\
+  match gen_msg_new with
+  | Some f => forall h q b,
+      f h q b = if HEADER_SIZE + lenN q + lenN b <? two64 then msg_new h q b else Panic
+  | None => True
+  end /\
+  agrees1 gen_from_slice from_slice /\
+  agrees1 gen_from_slice_exact from_slice_exact.
+Proof. exact c01_source_translation. Qed.
+
+Check C01_source_translation :
+  agrees1 gen_decode decode /\
+  match gen_encode with
+  | Some f => forall h, h_version h < 256 -> h_notify h < 256 -> f h = Ok (encode h)
+  | None => True
+  end /\
+  match gen_msg_new with
+  | Some f => forall h q b,
+      f h q b = if HEADER_SIZE + lenN q + lenN b <? two64 then msg_new h q b else Panic
+  | None => True
+  end /\
+  agrees1 gen_from_slice from_slice /\
+  agrees1 gen_from_slice_exact from_slice_exact.
+
+Print Assumptions C01_source_translation.
